@@ -950,7 +950,7 @@ def ded_exhaustive(q, tua_tab, other_tabs):
     if k == "fifo": return exh_fifo(tua, limit)
     raise ValueError(k)
 
-def gen_ded_queries(rng, n, abkinds=None, tight=0.0):
+def gen_ded_queries(rng, n, abkinds=None, tight=0.0, dense=0.0):
     """tight: fraction of queries whose divergence limit is drawn small (1..40), i.e. close to the busy-window
     length and the per-offset fixed points, where off-by-one slips in limit/offset handling show"""
     qs = []
@@ -962,6 +962,7 @@ def gen_ded_queries(rng, n, abkinds=None, tight=0.0):
         if rng.random() < tight:
             for x in q: x[-1] = rng.randint(1, 40)
         qs += q
+        if dense and rng.random() < dense: qs += families.q_dense(rng)
     return qs
 
 def run_with_tables(ctx, queries, model=True):
@@ -991,11 +992,11 @@ class C06(Prop):
     assumptions = ["the task under analysis can release a job (rbf(1) > 0); otherwise the search space is empty and the analyses return Ok(0)"]
     def run(self, ctx):
         rng = ctx.rng
-        queries = gen_ded_queries(rng, ctx.scale(350, 6000), None, 0.3)
+        queries = gen_ded_queries(rng, ctx.scale(350, 6000), None, 0.3, 0.25)
         rows, packed = run_with_tables(ctx, queries)
         ctx.correspond(rows)
         # a larger, cheaper stream evaluated by the implementation and the exhaustive oracle only (no Coq evaluation)
-        rows_o, packed_o = run_with_tables(ctx, gen_ded_queries(rng, ctx.scale(3000, 30000), None, 0.5), model=False)
+        rows_o, packed_o = run_with_tables(ctx, gen_ded_queries(rng, ctx.scale(4500, 40000), None, 0.35, 1.0), model=False)
         for ((q, dv, rv, mv), tabs) in packed + packed_o:
             if any(t is None or t[0] != "l" for t in tabs): continue
             ctx.dist("analysis", q[0])
@@ -1191,6 +1192,7 @@ def fp_key(jobs, victim):
 
 class _SchedProp(Prop):
     variants = []
+    def victim_shifts(self, rng, tier): return []
     def setup(self, variant, rng): raise NotImplementedError
     def run(self, ctx):
         rng = ctx.rng
@@ -1207,6 +1209,14 @@ class _SchedProp(Prop):
             R = min(dv[1], rv[1]) if rv and rv[0] == "ok" else dv[1]
             H = min(300, 3 * q[-1] + 20)
             w, wit = worst_response(tasks, keyf, vi, rng, H, tries=2 if ctx.tier == "quick" else 4)
+            # the critical instant of EDF (and of jittered FP) is not synchronous: also release the analysed task
+            # with an offset relative to the others
+            base_shift = tasks[vi].get("shift", 0)
+            for s_ in self.victim_shifts(rng, ctx.tier):
+                tasks[vi]["shift"] = base_shift + s_
+                w2, wit2 = worst_response(tasks, keyf, vi, rng, H, tries=1)
+                if w2 > w: w, wit = w2, wit2
+            tasks[vi]["shift"] = base_shift
             self.judge(ctx, v, q, R, w, wit)
         finalize(ctx)
 
@@ -1222,6 +1232,8 @@ class C01(_SchedProp):
     relation = "one"; nquick = 320; nthorough = 4000
     def setup(self, v, rng):
         S = gen_fp_system(rng, ["periodic", "sporadic", "curve", "extrap", "propagated", "jitter"])
+        if rng.random() < 0.5:
+            ts = families.gen_dense_system(rng); S["tua"] = ts[0]; S["hp"] = ts[1:]
         q, tasks, vi = fp_variant_setup(v, S, rng)
         return q, tasks, vi, fp_key
     def judge(self, ctx, v, q, R, w, wit):
@@ -1269,8 +1281,15 @@ class C02(_SchedProp):
             "query whose result is not Ok(0)")
     proof_status = "see coverage.theorems"
     variants = ["edf_fp", "edf_np", "edf_lp", "edf_fnp"]
-    relation = "one"; nquick = 320; nthorough = 4000
+    def victim_shifts(self, rng, tier):
+        return [1, 2, 3, 4, 5, 7, 9, 12, 16] + [rng.randint(1, 40) for _ in range(3 if tier == "quick" else 12)]
+    relation = "one"; nquick = 500; nthorough = 5000
     def setup(self, v, rng):
+        if rng.random() < 0.5:
+            ts = families.gen_dense_system(rng)
+            dl = lambda rb: rng.choice([rng.randint(rb[2][1], max(rb[2][1], rb[1][1])), rng.randint(rb[2][1], 2 * rb[1][1] + 2)])
+            S = dict(tua=ts[0], others=ts[1:], D=dl(ts[0]), od=[dl(o) for o in ts[1:]])
+            return edf_variant_setup(v, S, rng)
         return edf_variant_setup(v, gen_edf_system(rng, ["periodic", "sporadic", "curve", "extrap", "propagated", "jitter"]), rng)
     def judge(self, ctx, v, q, R, w, wit):
         ctx.oracle("no_schedule_exceeds_the_bound", w <= R, "%s returns Ok(%d) but a legal EDF schedule has a job of the analysed task with response time %d" % (v, R, w),
@@ -1524,8 +1543,8 @@ def exh_ecrts(sbf, limit, bw_rhs, rhs, offsets=None, inclusive=True):
     return ("ok", best)
 
 def rb_leaf_tables(rb):
-    """flatten an rb of scalar-cost rbfs into [(ab, C)]"""
-    if rb[0] == "rbf": return [(rb[1], rb[2][1])]
+    """flatten an rb into its leaves [(ab, cm)]"""
+    if rb[0] == "rbf": return [(rb[1], rb[2])]
     if rb[0] == "boxed": return rb_leaf_tables(rb[1])
     out = []
     for x in rb[1]: out += rb_leaf_tables(x)
@@ -1560,8 +1579,28 @@ class C07(Prop):
     def run(self, ctx):
         rng = ctx.rng
         queries = []
-        for _ in range(ctx.scale(150, 2500)): queries += families.q_ecrts(rng, None, True)
-        for _ in range(ctx.scale(150, 2500)): queries += families.q_rtss(rng, None, True)
+        for _ in range(ctx.scale(110, 2500)): queries += families.q_ecrts(rng, None, rng.random() < 0.5)     # half with multiframe / curve costs
+        for _ in range(ctx.scale(110, 2500)): queries += families.q_rtss(rng, None, True)
+        # targeted: own callback with job-dependent costs (multiframe / cost curve) and short periods, so that several own
+        # jobs fall into one response window and least_wcet_in_interval matters
+        n_model = None
+        for it in range(ctx.scale(160, 2000) + ctx.scale(2200, 20000)):
+            if it == ctx.scale(160, 2000): n_model = len(queries)        # the queries from here on are implementation-only
+            sb = families.gen_ros_sb(rng)
+            T = rng.randint(4, 20)
+            fr = [rng.randint(1, 4) for _ in range(rng.randint(2, 3))]
+            cm = ["multiframe", fr] if rng.random() < 0.7 else ["ccurve", ["costs", gen.gen_costcurve(rng, 2)]]
+            own = ["rbf", ["sporadic", T, rng.choice([0, rng.randint(0, T), rng.randint(T, 3 * T)])], cm]
+            intf = ["agg", [["rbf", gen.gen_sporadic(rng), ["scalar", rng.randint(1, 4)]] for _ in range(rng.randint(1, 2))]]
+            limit = rng.randint(40, 300)
+            k = rng.choice(["timer", "pp", "chain"])
+            if k == "timer": queries.append(["timer", sb, own, intf, rng.randint(0, 3), limit])
+            elif k == "pp": queries.append(["pp", sb, own, intf, limit])
+            else:
+                pre = [["rbf", own[1], ["scalar", rng.randint(1, 3)]]]
+                queries.append(["chain", sb, own, ["agg", pre], ["agg", pre + [own]], intf, limit])
+        nonscalar_rtss = []
+        for _ in range(ctx.scale(40, 800)): nonscalar_rtss += families.q_rtss(rng, None, False)                 # correspondence only
         # witness of the known finding C07-ecrts19-pruning
         queries.append(["pp", ["dedicated"], ["rbf", ["sporadic", 19, 0], ["scalar", 1]], ["agg", [["rbf", ["curve", ["dmin", [5, 8, 17, 24]]], ["scalar", 4]]]], 100])
         pool = TabPool(); need = []
@@ -1574,12 +1613,21 @@ class C07(Prop):
                 need.append((sbk, ks))
             else:
                 rbs = [q[2]] if q[0] == "es" else [q[2], q[3]] if q[0] in ("timer", "pp") else [q[2], q[3], q[4], q[5]]
-                ks = [[(pool.need(["natab", ab, H + 2]), C) for ab, C in rb_leaf_tables(rb)] for rb in rbs]
+                ks = [[(pool.need(["natab", ab, H + 2]), cm) for ab, cm in rb_leaf_tables(rb)] for rb in rbs]
                 need.append((sbk, ks))
-        rows = ctx.run(queries)
+        rows = ctx.run(queries[:n_model]) + ctx.run(queries[n_model:], model=False)
         trows = ctx.run(pool.qs, model=False, release=False)
         pool.resolve(trows)
-        ctx.correspond(rows)
+        # second phase: the job costs of every leaf's cost model, as many as can arrive within the horizon
+        pool2 = TabPool(); jck = {}
+        for q, (sbk, ks) in zip(queries, need):
+            if q[0] in ("rr", "bw"): continue
+            for leafs in ks:
+                for k, cm in leafs:
+                    t = pool.tab(k)
+                    if t is not None: jck[(k, sx(cm))] = pool2.need(["jobcosts", cm, max(t) + 1])
+        pool2.resolve(ctx.run(pool2.qs, model=False, release=False))
+        ctx.correspond(rows + ctx.run(nonscalar_rtss))
         for q, (sbk, ks), (_, dv, rv, mv) in zip(queries, need, rows):
             st = pool.tab(sbk)
             if st is None or dv is None: continue
@@ -1591,10 +1639,13 @@ class C07(Prop):
                 fns = []
                 ok = True
                 for leafs in ks:
-                    tabs = [(pool.tab(k), C) for k, C in leafs]
-                    if any(t is None for t, _ in tabs): ok = False; break
-                    fns.append((lambda d, tabs=tabs: sum(C * (t[d] if d < len(t) else t[-1]) for t, C in tabs),
-                                lambda d, tabs=tabs: min([C for t, C in tabs if (t[d] if d < len(t) else t[-1]) > 0], default=0)))
+                    tabs = [(pool.tab(k), pool2.tab(jck.get((k, sx(cm)), ""))) for k, cm in leafs]
+                    if any(t is None or jc is None for t, jc in tabs): ok = False; break
+                    nat = lambda t, d: t[d] if d < len(t) else t[-1]
+                    # service_needed = sum over leaves of the cost of the arrived jobs; least_wcet_in_interval = minimum over
+                    # leaves of the least job cost among the arrived jobs (0 for a leaf without arrivals)
+                    fns.append((lambda d, tabs=tabs: sum(sum(jc[:nat(t, d)]) for t, jc in tabs),
+                                lambda d, tabs=tabs: min([(min(jc[:nat(t, d)]) if nat(t, d) > 0 else 0) for t, jc in tabs], default=0)))
                 if not ok: continue
                 if q[0] == "es":
                     dem = fns[0][0]
@@ -1684,12 +1735,19 @@ def fifo_under_supply(jobs, supply, horizon):
         if left[k] == 0: done[k] = t + 1; queue.pop(0)
     return done
 
-def gen_ros_system(rng):
+def gen_ros_system(rng, frames=False):
     nt = rng.randint(0, 2); npol = rng.randint(1, 3) if nt else rng.randint(1, 4)
     cbs = []
     for i in range(nt): cbs.append(dict(kind="timer", prio=i, cost=rng.randint(1, 5), ab=gen.gen_sporadic(rng) if rng.random() < 0.5 else ["periodic", rng.randint(5, 60)]))
     for i in range(npol): cbs.append(dict(kind="polled", prio=i, cost=rng.randint(1, 6), ab=gen.gen_sporadic(rng)))
     sb = families.gen_ros_sb(rng)
+    if frames:
+        for c in cbs:
+            if rng.random() < 0.5:
+                # wcet::Multiframe charges the first n frames for any n consecutive jobs: that is a bound on every run
+                # only for non-increasing frame vectors (the classical accumulatively-monotonic assumption)
+                c["frames"] = sorted([rng.randint(1, 5) for _ in range(rng.randint(2, 3))], reverse=True); c["cost"] = max(c["frames"])
+                if c["ab"][0] == "sporadic" and rng.random() < 0.5: c["ab"] = ["sporadic", c["ab"][1], rng.randint(c["ab"][1], 3 * c["ab"][1])]
     # steer utilisation below the supply rate
     u = sum(c["cost"] * gen.ab_rate(c["ab"]) for c in cbs); rate = gen.sb_rate(sb) * rng.choice([0.4, 0.6, 0.8, 0.95])
     f = max(1.0, u / rate)
@@ -1716,10 +1774,10 @@ class C04(Prop):
     def run(self, ctx):
         rng = ctx.rng
         cases = []
-        for _ in range(ctx.scale(170, 2500)):
-            cbs, sb = gen_ros_system(rng)
+        for _ in range(ctx.scale(500, 5000)):
+            cbs, sb = gen_ros_system(rng, frames=True)
             limit = rng.randint(100, 600)
-            rbf = lambda c: ["rbf", c["ab"], ["scalar", c["cost"]]]
+            rbf = lambda c: ["rbf", c["ab"], (["multiframe", c["frames"]] if c.get("frames") else ["scalar", c["cost"]])]
             kind = rng.choice(["es", "timer", "pp"])
             if kind == "timer" and not any(c["kind"] == "timer" for c in cbs): kind = "pp"
             if kind == "es":
@@ -1748,7 +1806,9 @@ class C04(Prop):
                     for victim in range(len(cbs)):
                         jobs = []
                         for i, c in enumerate(cbs):
-                            for a in dense_arrivals(c["ab"], rng, H, True, 0): jobs.append((a, c["cost"], i, 1 if i == victim else 0))
+                            for n_, a in enumerate(dense_arrivals(c["ab"], rng, H, True, 0)):
+                                cst = c["frames"][n_ % len(c["frames"])] if c.get("frames") else c["cost"]
+                                if cst > 0: jobs.append((a, cst, i, 1 if i == victim else 0))
                         done = fifo_under_supply(jobs, sup, H + 400)
                         for k, j in enumerate(jobs):
                             if j[2] == victim and done[k] is not None and done[k] - j[0] > worst: worst = done[k] - j[0]; wit = dict(job=j[:3], response=worst)
@@ -1826,4 +1886,76 @@ class C05(Prop):
                            "%s: self-consistent bounds %s but the simulated executor shows response times %s (callbacks %s, supply %s)" %
                            (S["which"], bounds, worst, [(c["k"], c["cost"], c["ab"]) for c in cbs], sb),
                            [rows[b + i][0] for i in bad[:1]], cls="oracle:unsafe:" + S["which"])
+        finalize(ctx)
+
+# ============================================================================= C15
+import math
+@register("C15")
+class C15(Prop):
+    rule = ("rates as small rationals x epsilon in {1e-1 .. 1e-6} x interval lengths such that the mean rate*delta ranges over "
+            "[0, 3000] (incl. the hundreds and thousands where the naive evaluation overflowed); the implementation's n is accepted iff "
+            "the certified checker of Model/Poisson.v places it in the tolerance band (tau = 1e-9) of the (1-eps) quantile; plus "
+            "monotonicity in delta, 0 at delta = 0 and the mass function against a log-space evaluation; non-trivial = distinct query "
+            "with non-zero result")
+    proof_status = "real-number specification and checker soundness proved (standard-library real/classical axioms); the f64 program itself is tied by the tolerance-band check only"
+    trusted_extra = ["C15: axioms of the standard library's real numbers and Coquelicot: ClassicalDedekindReals.sig_forall_dec, sig_not_dec, FunctionalExtensionality.functional_extensionality_dep, Classical_Prop.classic",
+                     "C15: f64 arithmetic, exp and ln of the platform are not modelled; the tolerance tau = 1e-9 absorbs their rounding"]
+    def run(self, ctx):
+        rng = ctx.rng
+        qs = []; meta = []
+        for _ in range(ctx.scale(160, 2000)):
+            rd = rng.choice([1, 10, 100, 1000]); rn = rng.randint(1, 50)
+            ed = rng.choice([10, 100, 1000, 10000, 1000000]); en = rng.randint(1, 9)
+            mean = rng.choice([rng.uniform(0, 5), rng.uniform(1, 150), rng.uniform(100, 1000), rng.uniform(500, 3000)])
+            delta = max(0, int(mean * rd / rn))
+            if rng.random() < 0.05: delta = 0
+            base = len(qs)
+            qs += [["poisson_na", rn, rd, en, ed, delta], ["poisson_na", rn, rd, en, ed, delta + rng.randint(1, 5)]]
+            meta.append((base, rn, rd, en, ed, delta))
+        for _ in range(ctx.scale(80, 800)):
+            rd = rng.choice([1, 10, 100]); rn = rng.randint(1, 30); delta = rng.randint(0, 600); k = rng.randint(0, 40) + int(rn * delta / rd)
+            qs.append(["poisson_pmf", rn, rd, delta, max(0, k - rng.randint(0, 30))]); meta.append(("pmf", len(qs) - 1))
+        rows = ctx.run(qs, model=False)
+        # the certified band test on the implementation's answers
+        cq = []; cmeta = []
+        for m in meta:
+            if m[0] == "pmf": continue
+            base, rn, rd, en, ed, delta = m
+            for off, d in ((0, delta), (1, qs[base + 1][5])):
+                dv = rows[base + off][1]
+                if dv and dv[0] == "n":
+                    cq.append(["poisson_check", rn, rd, en, ed, 1, 10 ** 9, d, dv[1]]); cmeta.append((rows[base + off][0], dv[1], rn * d / rd))
+        crows = ctx.run(cq, release=False) if False else None
+        # poisson_check is a model-only query: evaluate through the model runner directly
+        cases = list(enumerate(cq))
+        mres, errs = rta.run_model(cases, "%s_pc" % ctx._tag, per_case_timeout=60)
+        ctx.corr_stats["cases"] += len(cq)
+        for i, (q0, n, mean) in enumerate(cmeta):
+            ctx.evaluations += 1
+            ctx.dist("mean_bucket", "0" if mean == 0 else "<10" if mean < 10 else "<150" if mean < 150 else "<1000" if mean < 1000 else ">=1000")
+            r = mres.get(i)
+            if r is None: ctx.corr_stats["model_timeouts"] += 1; continue
+            ok = r == ("n", 1)
+            if ok and n > 0: ctx._distinct.add(rta.stable_hash(q0))
+            if not ok: ctx.corr_stats["disagreements"] += 1
+            ctx.oracle("answer_is_the_quantile_up_to_tolerance", ok,
+                       "number_arrivals = %d for mean %.3f is outside the tolerance band of the (1-eps) quantile (certified checker rejects it)" % (n, mean),
+                       [q0], cls="oracle:not_quantile")
+        for m in meta:
+            if m[0] == "pmf":
+                q, dv, rv, _ = rows[m[1]]
+                if not dv or dv[0] != "f" or len(dv) < 4: continue
+                try: val = (-1) ** int(dv[3]) * int(dv[1]) * 2.0 ** int(dv[2])
+                except Exception: continue
+                mean = q[1] * q[3] / q[2]; k = q[4]
+                ref = (1.0 if k == 0 else 0.0) if mean == 0 else math.exp(-mean + k * math.log(mean) - math.lgamma(k + 1))
+                ctx.oracle("mass_function", abs(val - ref) <= 1e-9 * max(ref, 1e-300) + 1e-300, "arrival_probability(mean %.3f, k=%d) = %.17g, Poisson mass function = %.17g" % (mean, k, val, ref), [q], cls="oracle:pmf")
+                continue
+            base = m[0]
+            a, b = rows[base][1], rows[base + 1][1]
+            if a and b and a[0] == "n" and b[0] == "n":
+                ctx.oracle("non_decreasing_in_delta", a[1] <= b[1], "number_arrivals decreases from %d to %d when delta grows" % (a[1], b[1]), [rows[base][0], rows[base + 1][0]], cls="oracle:not_monotone")
+                if m[5] == 0: ctx.oracle("zero_at_zero", a[1] == 0, "number_arrivals(0) = %d" % a[1], [rows[base][0]], cls="oracle:zero")
+            for x in (a, b):
+                if x and x[0] in ("timeout", "panic"): ctx.oracle("terminates", False, "number_arrivals did not return a value: %s" % x[0], [rows[base][0]], cls="oracle:no_value")
         finalize(ctx)
